@@ -61,9 +61,34 @@ impl<T> MpscUnboundedSender<T> {
     }
 }
 
+/// Unbounded receiver with a scheduling point right AFTER a `recv` has produced a value: the receiving task
+/// can be preempted between taking an item off one of its ports and acting on it
+#[derive(Debug)]
+pub struct MpscUnboundedReceiver<T>(tokio::sync::mpsc::UnboundedReceiver<T>);
+
+impl<T> MpscUnboundedReceiver<T> {
+    pub async fn recv(&mut self) -> Option<T> {
+        let v = self.0.recv().await;
+        point(PointKind::Other, "mpsc.recv.ready", self as *const Self as usize);
+        v
+    }
+    pub fn try_recv(&mut self) -> Result<T, tokio::sync::mpsc::error::TryRecvError> {
+        self.0.try_recv()
+    }
+    pub fn close(&mut self) {
+        self.0.close()
+    }
+    pub fn is_empty(&self) -> bool {
+        self.0.is_empty()
+    }
+    pub fn len(&self) -> usize {
+        self.0.len()
+    }
+}
+
 pub fn mpsc_unbounded<T>() -> (MpscUnboundedSender<T>, MpscUnboundedReceiver<T>) {
     let (tx, rx) = tokio::sync::mpsc::unbounded_channel();
-    (MpscUnboundedSender(tx), rx)
+    (MpscUnboundedSender(tx), MpscUnboundedReceiver(rx))
 }
 
 /// One-shot sender with a scheduling point before `send`
